@@ -32,4 +32,4 @@ def classes(m, v):
     return sorted(m.features & {'gen', 'usermacro', 'glossary', 'list', 'theorem', 'heading', 'inline-maths', 'detached', 'par-env', 'duplicating-macro'})
 
 
-run_shard, replay = docprop.make(ID, judge, nontrivial, classes, quick=40000, thorough=1000000)
+run_shard, replay = docprop.make(ID, judge, nontrivial, classes, quick=40000, thorough=333333)
